@@ -55,4 +55,54 @@ theorem hasEqualPair_iff (l : List Bytes) :
     | [a], _ => simp at hj
     | a :: b :: rest, hl => exact hl a b rest rfl
 
+/-- `calcMerkle` = iterated pairwise hash + the CVE-2012-2459 pair test on every level (shared by C05's
+    `merkle_mutation_iff` and C09's block-level decoding theorem). -/
+theorem calcMerkle_spec (h : Bytes → Bytes) (l : List Bytes) (r : Bytes) (m : Bool)
+    (hc : calcMerkle h l = some (r, m)) :
+    (m = true ↔ ∃ lv ∈ Spec.Merkle.levels h l.length l, ∃ j, 2 * j + 1 < lv.length ∧ lv[2 * j]? = lv[2 * j + 1]?) ∧
+    (Spec.Merkle.root h l.length l).head? = some r := by
+  unfold calcMerkle at hc
+  rw [calcMerkleLoop_eq] at hc
+  simp only [Bool.false_or] at hc
+  split at hc
+  · rename_i r' tl m' heq
+    simp only [Option.some.injEq, Prod.mk.injEq] at hc
+    obtain ⟨hr, hm⟩ := hc
+    simp only [Prod.mk.injEq] at heq
+    obtain ⟨h1, h2⟩ := heq
+    subst hr hm
+    constructor
+    · rw [← h2, List.any_eq_true]
+      constructor
+      · rintro ⟨lv, hlv, hp⟩
+        exact ⟨lv, hlv, (hasEqualPair_iff lv).mp hp⟩
+      · rintro ⟨lv, hlv, hp⟩
+        exact ⟨lv, hlv, (hasEqualPair_iff lv).mpr hp⟩
+    · rw [h1]; rfl
+  · simp at hc
+
+/-- `calcMerkle` fails (Go: index out of range) exactly on the empty list -/
+theorem calcMerkle_isSome (h : Bytes → Bytes) (l : List Bytes) (hl : l ≠ []) : (calcMerkle h l).isSome = true := by
+  unfold calcMerkle
+  rw [calcMerkleLoop_eq]
+  have : ∀ (fuel : Nat) (l : List Bytes), l ≠ [] → root h fuel l ≠ [] := by
+    intro fuel
+    induction fuel with
+    | zero => intro l hl; simpa [root] using hl
+    | succ f ih =>
+      intro l hl
+      simp only [root]
+      split
+      · apply ih
+        match l, hl with
+        | [a], _ => simp [nextLevel]
+        | a :: b :: rest, _ => simp [nextLevel]
+      · exact hl
+  have hne := this l.length l hl
+  split
+  · rfl
+  · rename_i heq
+    simp only [Prod.mk.injEq] at heq
+    exact absurd heq.1 hne
+
 end GocoinV.Proofs.C05
